@@ -270,22 +270,28 @@ theorem c06_await_own_handle {n : Nat} {a : Bool} {s : State} (h : Reachable n a
   intro rest last hdec hmem hlast
   have hc : o.cf / 2 ≠ 0 := by
     intro hc; have := handles_of_count_zero hi hc; rw [this] at hdec; simp at hdec
-  simp only [step, hi, awaitObj, hc, if_false]
+  -- the decomposition is the model's own: rest = handles after the pop, last = the popped value
+  have h1 := (pop_spec I hi hc).2.1
+  have hrest0 : handles { setObj s i (some { o with cf := o.cf - 2 }) with popped := s.popped ++ [popValue s o] } i
+      = handlesOf s { o with cf := o.cf - 2 } := by
+    simp only [handles, State.obj, setObj, List.getElem?_set, obj_lt hi, if_true]; rfl
+  rw [hrest0] at h1
+  have hd : rest = handlesOf s { o with cf := o.cf - 2 } ∧ last = popValue s o := by
+    rw [h1] at hdec
+    have := List.append_inj' hdec.symm (by simp)
+    exact ⟨this.1, by simpa using this.2⟩
+  obtain ⟨hd1, hd2⟩ := hd
+  have hpv : ¬ popValue s o = me := by rw [← hd2]; exact hlast
   by_cases ha : s.active = true
-  · simp only [ha, if_true]
-    obtain ⟨-, h1, g1, g2, hqq, hr, -, -, -, hgv⟩ := awaitQueue_spec I ha hi hc me
-    -- the decomposition is the model's own: rest = handles after the pop, last = the popped value
-    have hd : rest = handlesOf s { o with cf := o.cf - 2 } ∧ last = popValue s o := by
-      rw [h1] at hdec
-      have := List.append_inj' hdec.symm (by simp)
-      exact ⟨this.1, by simpa using this.2⟩
-    obtain ⟨hd1, hd2⟩ := hd
+  · have hstep : (step s (Op.await i me)).1 = flushUntil (resumeAll (awaitQueue s i o me) [popValue s o]) me := by
+      simp only [step, hi, awaitObj, hc, ha, if_true, if_false, if_neg hpv]
+    rw [hstep]
+    obtain ⟨-, -, g1, g2, hqq, hr, -, -, -, hgv⟩ := awaitQueue_spec I ha hi hc me
     have hE : awaitExtra s o me = [] := by simp [awaitExtra, ← hd1, hmem]
     rw [hE, List.append_nil, ← hd1] at hqq
     rw [hE, List.append_nil] at hgv
-    rw [← hd2] at hr ⊢
-    simp only [if_neg hlast]
-    generalize hY : resumeAll (awaitQueue s i o me) [last] = Y at g1 g2 hqq hr hgv
+    rw [← hd2] at hr
+    generalize hY : resumeAll (awaitQueue s i o me) [popValue s o] = Y at g1 g2 hqq hr hgv ⊢
     have hidx : Y.queue.idxOf me + 1 = s.queue.length + (rest.idxOf me + 1) := by
       rw [hqq, idxOf_append_right _ _ _ hq]; omega
     have htake : Y.queue.take (Y.queue.idxOf me + 1) = s.queue ++ rest.take (rest.idxOf me + 1) := by
@@ -295,37 +301,35 @@ theorem c06_await_own_handle {n : Nat} {a : Bool} {s : State} (h : Reachable n a
     have hres : resumed (flushUntil Y me) = resumed s ++ [last] ++ s.queue ++ rest.take (rest.idxOf me + 1) := by
       rw [resumed_flushUntil, htake, hr]; simp
     have hque : (flushUntil Y me).queue = rest.drop (rest.idxOf me + 1) := hdrop
-    refine ⟨hgv, ?_, ?_, ?_, fun _ => ⟨hres, hque⟩, fun hf => by cases hf⟩
+    refine ⟨hgv, ?_, ?_, ?_, fun _ => ⟨hres, hque⟩, fun hf => by rw [ha] at hf; cases hf⟩
     · rw [handles_of_eq (s' := flushUntil Y me) (s := Y) rfl rfl]; exact g1
     · intro k hk; rw [handles_of_eq (s' := flushUntil Y me) (s := Y) rfl rfl]; exact g2 k hk
     · rw [hres, hque]
       simp only [List.append_assoc, List.take_append_drop]
   · have ha' : s.active = false := by simpa using ha
-    simp only [ha', Bool.false_eq_true, if_false]
+    have hstep : (step s (Op.await i me)).1
+        = { flushAll (resumeAll (awaitQueue { s with active := true } i o me) [popValue s o]) with active := false } := by
+      simp only [step, hi, awaitObj, hc, ha', if_false, Bool.false_eq_true]
+    rw [hstep]
     have hi' : ({ s with active := true } : State).obj i = some o := hi
-    obtain ⟨-, h1, g1, g2, hqq, hr, -, -, -, hgv⟩ := awaitQueue_spec (inv_active I) rfl hi' hc me
-    have h1' : handles s i = handlesOf s { o with cf := o.cf - 2 } ++ [popValue s o] := h1
-    have hd : rest = handlesOf s { o with cf := o.cf - 2 } ∧ last = popValue s o := by
-      rw [h1'] at hdec
-      have := List.append_inj' hdec.symm (by simp)
-      exact ⟨this.1, by simpa using this.2⟩
-    obtain ⟨hd1, hd2⟩ := hd
+    obtain ⟨-, -, g1, g2, hqq, hr, -, -, -, hgv⟩ := awaitQueue_spec (inv_active I) rfl hi' hc me
     have hE : awaitExtra { s with active := true } o me = [] := by
       have : handlesOf { s with active := true } { o with cf := o.cf - 2 } = handlesOf s { o with cf := o.cf - 2 } := rfl
       simp [awaitExtra, this, ← hd1, hmem]
-    have hpv : popValue { s with active := true } o = popValue s o := rfl
+    have hpv' : popValue { s with active := true } o = popValue s o := rfl
     have hq0 : s.queue = [] := I.idle ha'
     rw [hE, List.append_nil] at hqq hgv
-    rw [hpv] at g1 g2 hqq hr hgv
+    rw [hpv'] at g1 g2 hqq hr hgv
     have hqq' : (resumeAll (awaitQueue { s with active := true } i o me) [popValue s o]).queue = rest := by
       rw [hqq, hd1]; show s.queue ++ handlesOf s { o with cf := o.cf - 2 } = _; rw [hq0]; rfl
     have hr' : resumed (resumeAll (awaitQueue { s with active := true } i o me) [popValue s o]) = resumed s ++ [last] := by
       rw [hr, hd2]; rfl
-    generalize hY : resumeAll (awaitQueue { s with active := true } i o me) [popValue s o] = Y at g1 g2 hqq' hr' hgv ⊢
+    have hgv' : (resumeAll (awaitQueue { s with active := true } i o me) [popValue s o]).given = s.given := hgv
+    generalize hY : resumeAll (awaitQueue { s with active := true } i o me) [popValue s o] = Y at g1 g2 hqq' hr' hgv' ⊢
     have hres : resumed { flushAll Y with active := false } = resumed s ++ [last] ++ rest := by
       have e : resumed { flushAll Y with active := false } = resumed Y ++ Y.queue := resumed_flushAll Y
       rw [e, hr', hqq']
-    refine ⟨hgv, ?_, ?_, ?_, fun hf => by cases hf, fun _ => ⟨hres, rfl⟩⟩
+    refine ⟨hgv', ?_, ?_, ?_, fun hf => by rw [ha'] at hf; cases hf, fun _ => ⟨hres, rfl⟩⟩
     · rw [handles_of_eq (s' := { flushAll Y with active := false }) (s := Y) rfl rfl]; exact g1
     · intro k hk; rw [handles_of_eq (s' := { flushAll Y with active := false }) (s := Y) rfl rfl]; exact g2 k hk
     · rw [hres]; show _ ++ [] = _; rw [hq0]; simp
